@@ -135,7 +135,7 @@ let h_pcase args : fail list =
     let qout (o : bytes) =
       if !inputs_ok then q_redactable kind o else [] in
     (match r, obs with
-     | RMiss, _ -> incr unmodelled;
+     | RMiss _, _ -> incr unmodelled;
        (match obs with L (A "out" :: o :: _) -> qout (bts o) | _ -> [ { tag = "Q:C11"; msg = "panic escaped from " ^ kind } ])
      | RFuel, _ -> incr outfuel; [ { tag = "K:fuel"; msg = "model out of fuel" } ]
      | RPanic _, L [A "panic"] -> []    (* nested panic propagates on both sides *)
